@@ -8,7 +8,7 @@
  *   S:<style>:<hex>                         string: c create_string, s start/append/end, e start/extend/end, t append+truncate, n create_string_strn
  *   V:<style>:<esize>:<align>:<maxcount>:<count>:<hex>   vector: c create, p push, a append (chunks), e extend, t append+truncate
  *   R:<style>:<align>:<hex>                 struct: c create_struct, s start_struct/end_struct
- *   O:<style>:<r>,<r>..                     offset vector: c create_offset_vector, d _direct, p push, a append, t append+truncate
+ *   O:<style>:<r>,<r>..                     offset vector: c create_offset_vector, 2 the same twice from ONE reference array (two results), d _direct, p push, a append, t append+truncate
  *   U:<style>:<code>/<r|->,..               union vector: c create_union_vector, d _direct, p push, a append, t append+truncate (two results: values, types)
  *   Ts:<count>  Ti:<style>:<id>:<size>:<align>:<hex>  To:<id>:<r>  Tu:<id>:<code>:<r|->  Tv:<id>:<rtypes>:<rvalues>  Te
  *                                            table frame: start_table, table_add (a) / table_add_copy (c), table_add_offset,
@@ -144,6 +144,11 @@ static int run_op(flatcc_builder_t *B, char *op)
         flatcc_builder_ref_t *v = (flatcc_builder_ref_t *)malloc(sizeof(*v) * (size_t)(cnt + 1));
         for (i = 0; i < cnt; ++i) v[i] = regs[atoi(el[i])];
         if (st == 'c') r = flatcc_builder_create_offset_vector(B, v, (size_t)cnt);
+        else if (st == '2') {   /* the same (const) reference array used for two vectors: two results */
+            flatcc_builder_ref_t r1 = flatcc_builder_create_offset_vector(B, v, (size_t)cnt);
+            FAILIF(!r1); push_reg(r1);
+            r = flatcc_builder_create_offset_vector(B, v, (size_t)cnt);
+        }
         else if (st == 'd') r = flatcc_builder_create_offset_vector_direct(B, v, (size_t)cnt);
         else {
             FAILIF(flatcc_builder_start_offset_vector(B));
